@@ -43,7 +43,9 @@ class C06(Prop):
         "non-trivial = >=2 writes"))]
     models.append(ModelRun("cluster", cluster_gen.gen_writes, lambda c: any(o.startswith("getall") for o in c.ops),
                            spec_needs_impl=True, jobs=2, shrinkable=False, rule=(
-        "thorough tier only: real rnacos processes on loopback (3 nodes); publishes/removals addressed to arbitrary nodes "
+        "real rnacos processes on loopback (3 nodes). Both tiers: one directed scenario - the same key written through a "
+        "follower and then through another node, through every node, removed and re-published through different nodes. "
+        "Thorough tier: publishes/removals addressed to arbitrary nodes "
         "(routed to the leader), kill -9 / SIGSTOP / restart of one node at a time, leader changes; after 10 s of quiet "
         "every live node must serve the same content for every key and it must be the last acknowledged write or a later "
         "submitted one")))
@@ -53,5 +55,6 @@ class C06(Prop):
         "the translator's recogniser of the 13 call sites of the write path (fails on unknown shapes)",
         "hand model RNacos/Model/WritePath.lean of the answer given to the client",
     ]
-    assumptions = ["the 3-process cluster behaviour (kills, restarts, leader changes) is explored by the thorough tier "
+    assumptions = ["the 3-process cluster behaviour (kills, restarts, leader changes) is explored (one directed scenario in "
+                   "the quick tier, random fault scenarios in the thorough tier) "
                    "(model `cluster`), not proved: election timing and message loss are runtime behaviour"]
